@@ -141,3 +141,90 @@ def enum_case(line, idx):
         return "hex2bin %d %s %s %s" % (cap, hexs(idx.to_bytes(ln, "little")), igns[ignidx], we)
     v, ln, ignidx, we, cap = int(p[1]), int(p[2]), int(p[3]), p[4], int(p[5])
     return "b642bin %d %s %s %s %d" % (cap, hexs(idx.to_bytes(ln, "little")), igns[ignidx], we, v)
+
+
+# ---- independent property predicate (strict reference decoders written from RFC 4648, not from the model)
+_STD = b"ABCDEFGHIJKLMNOPQRSTUVWXYZabcdefghijklmnopqrstuvwxyz0123456789+/"
+_URL = b"ABCDEFGHIJKLMNOPQRSTUVWXYZabcdefghijklmnopqrstuvwxyz0123456789-_"
+
+
+def _ign(s):
+    return None if s == "N" else (b"" if s == "-" else bytes.fromhex(s))
+
+
+def _spec_b64(text, ign, v):
+    """returns decoded bytes if `text` is well formed for variant v modulo ignorable characters, else None;
+    'undecidable' when the ignore set meets the alphabet or '=' (grammar is then order dependent)."""
+    import base64
+    alpha = _URL if v & 4 else _STD
+    if ign and any((c in alpha or c == 0x3d) for c in ign):
+        return "undecidable"
+    core = bytes(c for c in text if (c in alpha or c == 0x3d) or not (ign is not None and c != 0 and c in ign))
+    if any((c not in alpha and c != 0x3d) for c in core):
+        return None
+    data = core.rstrip(b"=")
+    npad = len(core) - len(data)
+    if b"=" in data or len(data) % 4 == 1:
+        return None
+    want_pad = 0 if (v & 2) else (-len(data)) % 4
+    if npad != want_pad:
+        return None
+    bits = 0
+    for c in data:
+        bits = (bits << 6) | alpha.index(c)
+    extra = (6 * len(data)) % 8
+    if bits & ((1 << extra) - 1):
+        return None
+    return (bits >> extra).to_bytes(6 * len(data) // 8, "big")
+
+
+def _spec_hex(text, ign):
+    out = bytearray()
+    i = 0
+    hexd = b"0123456789abcdefABCDEF"
+    while i < len(text):
+        c = text[i]
+        if c in hexd:
+            if i + 1 >= len(text) or text[i + 1] not in hexd:
+                return None
+            out.append(int(text[i:i + 2].decode(), 16))
+            i += 2
+        elif ign is not None and c != 0 and c in ign:
+            i += 1
+        else:
+            return None
+    return bytes(out)
+
+
+def predicate(ctx, line, impl, model):
+    p = line.split(" ")
+    bx = lambda s: b"" if s == "-" else bytes.fromhex(s)
+    try:
+        if p[0] in ("b642bin", "hex2bin") and p[4 if p[0] == "b642bin" else 4 - 1] in ("0", "1"):
+            we = p[4] if p[0] == "b642bin" else p[4 - 0 - 0]
+        if p[0] == "b642bin":
+            cap, text, ign, we, v = int(p[1]), bx(p[2]), _ign(p[3]), p[4], int(p[5])
+            if v not in (1, 3, 5, 7):
+                return (impl != "misuse"), "invalid variant must go to the misuse handler"
+            exp = _spec_b64(text, ign, v)
+        elif p[0] == "hex2bin":
+            cap, text, ign, we = int(p[1]), bx(p[2]), _ign(p[3]), p[4]
+            exp = _spec_hex(text, ign)
+        else:
+            return True, "implementation output differs from the model (encoders: model proved equal to RFC 4648)"
+        if exp == "undecidable" or we == "1":
+            return True, "implementation differs from the model on a decoding case outside the simple reference predicate"
+        f = impl.split(" ")
+        rc = f[0]
+        if exp is None or len(exp) > cap:
+            if rc == "0":
+                return True, "property violated: malformed or over-capacity text accepted (reference decoder rejects it)"
+            return False, "rejected as required; only unspecified outputs differ from the model"
+        if rc != "0":
+            return True, "property violated: well-formed text rejected (reference decoder yields %s)" % exp.hex()
+        got = bytes.fromhex(f[3])[:len(exp)] if f[3] != "-" else b""
+        if got != exp or f[1] != str(len(exp)):
+            return True, "property violated: decoded bytes/length differ from the reference decoder (%s)" % exp.hex()
+        return False, "agrees with the reference decoder; differs from the model only in unspecified outputs"
+    except Exception as e:
+        return True, "implementation differs from the model (predicate error: %s)" % e
